@@ -37,7 +37,7 @@ MANIFEST_TEXT = ('Genomes of 3 (quick) / 4 (thorough) contigs x every ordered se
                  'order) x chunkings of the entries (every cut set for <= 5 entries, boundary cut sets above) x consumers '
                  '{compute(get_mask().get_data()), compute(get_pileup().sum()), compute(get_pileup().get_data()), '
                  'get_track(stream) data and sum, read_intervals(stream=True) from a scratch file, MultiStream attribute zipped '
-                 'with names (contig column as text and genome-encoded), jaccard/forbes with the disorder in either argument (also genome-encoded), left_join of grouped streams, '
+                 'with names (contig column as string array, as a ragged text field and genome-encoded; names plain, with "_" and prefix-nested chr1/chr10/chr100), jaccard/forbes with the disorder in either argument (also genome-encoded), left_join of grouped streams, '
                  'iter_chromosomes pulled exactly N and N+1 times}: compatible data must complete with every entry under its '
                  'own contig; incompatible data must raise, never complete with entries missing.')
 MANIFEST_NOTE = 'Trusted: NumPy, the dense position model in this file. Group sizes 1-2; one unknown and one ignored name.'
@@ -48,7 +48,9 @@ UNKNOWN, IGNORED = 'chrX', 'chrIgn'
 
 NAMING = {'plain': lambda i: 'chr%d' % (i + 1),
           # a contig name containing '_' in a genome built with the keep-all filter (Genome.from_dict default)
-          'underscore': lambda i: 'chr%d_alt' % (i + 1) if i == 1 else 'chr%d' % (i + 1)}
+          'underscore': lambda i: 'chr%d_alt' % (i + 1) if i == 1 else 'chr%d' % (i + 1),
+          # every name is a proper prefix of the next one (chr1, chr10, chr100, ...): lexicographically sorted data
+          'prefix': lambda i: 'chr1' + '0' * i}
 _naming = ['plain']
 
 
@@ -140,6 +142,26 @@ def make_encoded_stream(names, size, entries, cuts):
     g = bnp.Genome.from_dict({n: size for n in names})
     chunks = [g.get_intervals(c).get_data() for c in make_chunks(entries, cuts)]
     return NpDataclassStream(iter(chunks), dataclass=type(chunks[0]) if chunks else bnp.datatypes.Interval)
+
+
+_RAGGED_CLS = []
+
+
+def make_ragged_stream(entries, cuts):
+    """the same chunks with the contig column declared `str`: a ragged array of characters (the column type of tables
+    with a text field, e.g. BAM-derived Bed6), not a string array"""
+    from bionumpy.bnpdataclass import bnpdataclass
+    from bionumpy.streams import NpDataclassStream
+    if not _RAGGED_CLS:
+        @bnpdataclass
+        class TextInterval:
+            chromosome: str
+            start: int
+            stop: int
+        _RAGGED_CLS.append(TextInterval)
+    cls = _RAGGED_CLS[0]
+    chunks = [cls(list(c.chromosome.tolist()), c.start, c.stop) for c in make_chunks(entries, cuts)]
+    return NpDataclassStream(iter(chunks), dataclass=cls)
 
 
 def make_genome(names, size, with_ignored, use_parent=False):
@@ -300,6 +322,21 @@ def c_multistream_zip_encoded(names, size, entries, cuts, ign, scratch):
     return ('positions', out)
 
 
+def c_multistream_zip_ragged(names, size, entries, cuts, ign, scratch):
+    from bionumpy.streams import MultiStream
+    from engine import observe
+    if not entries:
+        return None
+    ms = MultiStream({n: size for n in names}, a=make_ragged_stream(entries, cuts))
+    out = {}
+    for n, grp in zip(ms.sequence_names, ms.a):
+        out[n] = set()
+        if len(grp):
+            for c, s in zip(chrom_text(grp.chromosome), observe.column(grp.start)):
+                out[n].add(s if str(c) == n else ('misattributed', str(c), s))
+    return ('positions', out)
+
+
 def c_jaccard_first_encoded(names, size, entries, cuts, ign, scratch):
     from bionumpy.arithmetics import jaccard
     stream = make_encoded_stream(names, size, entries, cuts)
@@ -313,8 +350,9 @@ def chrom_text(col):
     """contig names of a column that is text or genome-encoded"""
     from engine import observe
     enc = getattr(col, 'encoding', None)
-    if enc is not None and hasattr(enc, 'get_labels'):
-        labels = list(enc.get_labels())
+    labels = enc.get_labels() if enc is not None and hasattr(enc, 'get_labels') else None
+    if labels is not None:
+        labels = list(labels)
         return [labels[int(i)] for i in np.atleast_1d(np.asarray(col.raw())).tolist()]
     return [str(x) for x in observe.column(col)]
 
@@ -351,6 +389,7 @@ CONSUMERS = {
     'forbes_second': (c_forbes_second, False),
     'multistream_zip_encoded_contig_column': (c_multistream_zip_encoded, False),
     'jaccard_first_encoded_contig_column': (c_jaccard_first_encoded, False),
+    'multistream_zip_text_field_contig_column': (c_multistream_zip_ragged, False),
 }
 
 
@@ -387,6 +426,10 @@ def shards(tier, seed):
     us = [q for q in group_sequences(n) if UNKNOWN not in q and IGNORED not in q]
     for i in range(0, len(us), per):
         out.append({'n': n, 'seqs': us[i:i + per], 'tier': tier, 'naming': 'underscore'})
+    _naming[0] = 'prefix'
+    ps = [q for q in group_sequences(n) if UNKNOWN not in q and IGNORED not in q]
+    for i in range(0, len(ps), per):
+        out.append({'n': n, 'seqs': ps[i:i + per], 'tier': tier, 'naming': 'prefix'})
     _naming[0] = 'plain'
     return out
 
